@@ -395,3 +395,31 @@ def cancel_flag_before_forward(run, F):
                     run.violation(g['qname'], 'forward-without-cancel-flag', '%s:%s' % (g['file'], G.line(m)),
                                   'stop() of %s starts its completion forwarder on a path that has not set cancelled_: forward_set_value() then delivers set_value for an operation that was cancelled (a lock waiter that never owned the mutex completes as its owner)' % r['qname'].replace('unifex::', ''))
     if n == 0: raise Broken('no stop() hook with a cancelled_ flag and a completion forwarder found')
+
+
+@rule('R-ADAPTER-RAII', ['C03', 'C18', 'C04', 'C10', 'C12'], floor=1)
+def adapter_unsubscribed_by_destructor(run, F):
+    """every class that holds a raw `inplace_stop_token_adapter<...>` (whose upstream callback is registered by subscribe() and removed only by unsubscribe()) unsubscribes it in its destructor - as the RAII wrapper `inplace_stop_token_adapter_subscription` and task's awaiter do: an operation state that is destroyed without completing (never started, or connect of the wrapped sender threw) must not leave the forwarding callback registered on the consumer's stop token"""
+    n = 0
+    for r in F.recs:
+        for fl in r['fields']:
+            t = (fl.get('wtype') or '') + ' ' + (fl.get('type') or '')
+            if 'inplace_stop_token_adapter<' not in t or 'inplace_stop_token_adapter_subscription' in t or fl.get('static'): continue
+            n += 1
+            run.inst('%s:%s %s' % (r['file'], fl.get('line') or r['line'], r['qname']), 'destructor unsubscribes %s' % fl['name'], key=(r['qname'], fl['name']))
+            ds = [g for g in F.by_record.get(r['qname'], []) if g.get('dtor') and g.get('blocks')]
+            def unsub(g, depth=0):
+                for _, _, e in events(g):
+                    if e['k'] != 'call': continue
+                    b = e['callee'].get('base') or ''
+                    if e['callee'].get('name') == 'unsubscribe' and last_field(b) == fl['name']: return True
+                    if depth < 2 and b in ('', 'this'):          # a member function of the same class called by the destructor
+                        for h in F.by_record.get(r['qname'], []):
+                            if h['name'] == e['callee'].get('name') and h.get('blocks') and h is not g and unsub(h, depth + 1): return True
+                return False
+            ok = any(unsub(d) for d in ds)
+            if not ok:
+                run.violation(r['qname'], 'adapter-not-unsubscribed:' + fl['name'], '%s:%s' % (r['file'], fl.get('line') or r['line']),
+                              '%s holds the raw stop-token adapter `%s` but its destructor never calls %s.unsubscribe(): when the object is destroyed without having completed (never started, connect threw) the forwarding callback stays registered on the upstream token and a later request_stop() runs it on a dead object' % (
+                                  r['qname'].replace('unifex::', ''), fl['name'], fl['name']))
+    if n == 0: raise Broken('no holder of a raw inplace_stop_token_adapter found')
